@@ -31,7 +31,9 @@ def edits(doc, rng, all_truncations):
         elif kind == "set-l14":
             d[i] = (d[i] & 0xF0) | 14
         elif kind == "neg-zero":
-            d[i:i + 1] = [0x31, 0x00] if rng.random() < 0.5 else [0x30]
+            # negative zero of every magnitude length: 0..8 bytes take the int64 path, 9+ the big.Int path, 14+ a VarUInt length
+            k = rng.choice([0, 1, 1, 2, 7, 8, 9, 9, 10, 13, 14, 15, 20, 130])
+            d[i:i + 1] = ([0x30 | k] if k < 14 else [0x3E] + iongen.varuint(k)) + [0x00] * k
         elif kind == "bad-bool":
             d[i:i + 1] = [0x10 | rng.randint(2, 14)]
         elif kind == "type15":
@@ -56,7 +58,12 @@ CORPUS = [  # minimal inputs of the findings fixed so far, and other hand-writte
     "e00100eaee0081832000", "e00100eae0", "e00100ea41", "e00100ea4300", "e00100ea718f", "e00100ea71ff",
     "e00100ead38420", "e00100eae3818420ff", "e00100eae481848100", "e00100eae38184e3", "e00100ea7900000000000000000a",
     "e00100eab6b5b4b3b2b1", "e00100ea88c328", "e00100ea82c080", "e00100ead2841f", "e00100eab221", "e00200ea20",
-    "e00100eab2e18a848484848484848484842e017f7f7f7f7f7f7f7f6b00000000"]
+    "e00100eab2e18a848484848484848484842e017f7f7f7f7f7f7f7f6b00000000",
+    # negative zero with a magnitude of 8, 9, 10, 13, 14 bytes; inside a list and a struct; followed by a value
+    "e00100ea38" + "00" * 8, "e00100ea39" + "00" * 9 + "2101", "e00100ea3a" + "00" * 10, "e00100ea3d" + "00" * 13,
+    "e00100ea3e8e" + "00" * 14 + "2101", "e00100eaba39" + "00" * 9, "e00100eadb8439" + "00" * 9 + "2101",
+    # a struct whose bytes end with a field name without a value (unordered, short length, ordered, nested, name only)
+    "e00100eade8484210184", "e00100ead4842101842102", "e00100ead18484210185", "e00100eab5d484210184", "e00100ead184", "e00100ead18184"]
 
 
 def run(ctx):
@@ -91,8 +98,115 @@ def run(ctx):
     ctx.count("C07-binary", len(lines), [], agree=ok, edit_kinds=kinds)
 
 
-def classify_case(line, go):
+K_SKIPPED = "malformed-bytes-inside-a-value-the-symbol-table-reader-skips"
+
+
+def _vu(d, i):
+    v = 0
+    for k in range(i, min(len(d), i + 10)):
+        v = (v << 7) | (d[k] & 0x7F)
+        if d[k] & 0x80:
+            return v, k + 1
     return None
+
+
+def _tlv(d, i, end):
+    """(type, is_null, start of body, end of value) of the value starting at i, by its header only"""
+    if i >= end:
+        return None
+    t, l = d[i] >> 4, d[i] & 0x0F
+    j = i + 1
+    if l == 15:
+        return (t, True, j, j)
+    if t == 1:
+        return (t, False, j, j)
+    if l == 14 or (t == 13 and l == 1):
+        r = _vu(d, j)
+        if r is None:
+            return None
+        l, j = r
+    if j + l > end:
+        return None
+    return (t, False, j, j + l)
+
+
+def _blob(total):
+    if total == 1:
+        return [0xA0]
+    if total <= 14:
+        return [0xA0 | (total - 1)] + [0] * (total - 1)
+    for vl in (1, 2, 3, 4):
+        l = total - 1 - vl
+        if l >= 0 and len(iongen.varuint(l)) <= vl:
+            return [0xAE] + [0] * (vl - len(iongen.varuint(l))) + iongen.varuint(l) + [0] * l
+    return None
+
+
+def sanitize(doc):
+    """the document with every value that readLocalSymbolTable skips without looking inside (an entry of `symbols`
+    that is not a string, a field other than imports/symbols) replaced by a blob of the same length; None when the
+    top-level framing itself cannot be followed"""
+    d = list(doc)
+    i, n = 0, len(d)
+    while i < n:
+        if d[i:i + 4] == [0xE0, 1, 0, 0xEA]:
+            i += 4
+            continue
+        v = _tlv(d, i, n)
+        if v is None:
+            return None
+        t, isnull, b0, e0 = v
+        if t == 14 and not isnull:
+            r = _vu(d, b0)
+            if r is None:
+                return None
+            alen, a0 = r
+            fs = _vu(d, a0)
+            inner = _tlv(d, a0 + alen, e0) if a0 + alen <= e0 else None
+            if fs is not None and fs[0] == 3 and inner is not None and inner[0] == 13 and not inner[1]:
+                j, se = inner[2], inner[3]
+                while j < se:
+                    f = _vu(d, j)
+                    if f is None:
+                        return None
+                    fv = _tlv(d, f[1], se)
+                    if fv is None:
+                        return None
+                    if f[0] == 7 and fv[0] == 11 and not fv[1]:
+                        k = fv[2]
+                        while k < fv[3]:
+                            ev = _tlv(d, k, fv[3])
+                            if ev is None:
+                                return None
+                            if ev[0] != 0 and (ev[0] != 8 or ev[1]):
+                                rb = _blob(ev[3] - k)
+                                if rb is None:
+                                    return None
+                                d[k:ev[3]] = rb
+                            k = ev[3]
+                    elif f[0] not in (6, 7) and fv[0] != 0:
+                        rb = _blob(fv[3] - f[1])
+                        if rb is None:
+                            return None
+                        d[f[1]:fv[3]] = rb
+                    j = fv[3]
+        i = e0
+    return d
+
+
+def classify_case(line, go):
+    """known deviation: the only malformation lies inside a value that the symbol-table reader skips by its length"""
+    try:
+        doc = list(bytes.fromhex(line.split(" ")[2][1:]))
+    except Exception:
+        return None
+    sd = sanitize(doc)
+    if sd is None or sd == doc:
+        return None
+    v = binlib.sdecode_many([iongen.hx(sd)])[0]
+    if v is None or v.startswith("?"):
+        return None
+    return K_SKIPPED
 
 
 _run_binary = run
